@@ -1,6 +1,12 @@
 /-
   C11 / C01 (text level) — the header of a unified diff as diff tools write it is read back exactly: names (stripped by -p), time
   stamps, format, and the stream is left at the first hunk; inert filler before the header changes nothing.
+
+  Both statements are proved AS FIRST STATED (no hypothesis added, no conclusion changed); the work is done by
+  `Header.parseHeader_unified` (PatchModel/Lemmas/Header.lean), which also gives `info` and `par'` explicitly
+  (`linesTillFirstHunk = filler.length + 3`, `lineNo + filler.length + 2`, flags clean — also after filler).
+  `hterm` (the first body line is terminated) is only used to read that line with `getLine_cons`; the flags it would set
+  are cleared by `parseHeader` anyway.
 -/
 import PatchModel.Spec.Inert
 import PatchModel.Spec.Diff
@@ -48,7 +54,7 @@ theorem unified_header_roundtrip (old new oldt newt : Bytes) (h : Hunk) (first :
     · exact Or.inr (Or.inl h1)
   have hp := Header.parseHeader_unified strip
     { s := { rest := unifiedHeader old new oldt newt ++ ⟨rangeLineText h, .lf⟩ :: first :: more }, lineNo := lineNo } {} []
-    old new oldt newt h first more (by simp) (by simp) hold hnew hot hnt hr hb hfirst.2.1 hfirst.2.2 hterm rfl rfl rfl rfl rfl
+    old new oldt newt h first more (by simp) (by simp) hold hnew hot hnt hr hb hfirst.2.1 hfirst.2.2 hterm (Or.inl rfl) rfl rfl rfl rfl
   exact ⟨_, _, hp, rfl, rfl, rfl⟩
 
 /-- … and inert filler lines in front of the header change nothing (mail headers, commit messages, blank lines) -/
@@ -77,11 +83,66 @@ theorem unified_header_after_filler (filler : List Line) (old new oldt newt : By
     · exact Or.inr (Or.inl h1)
   have hp := Header.parseHeader_unified strip
     { s := { rest := filler ++ unifiedHeader old new oldt newt ++ ⟨rangeLineText h, .lf⟩ :: first :: more }, lineNo := lineNo } {}
-    filler old new oldt newt h first more hin hft hold hnew hot hnt hr hb hfirst.2.1 hfirst.2.2 hterm rfl rfl rfl rfl
+    filler old new oldt newt h first more hin hft hold hnew hot hnt hr hb hfirst.2.1 hfirst.2.2 hterm (Or.inl rfl) rfl rfl rfl
     (by simp only [unifiedHeader, List.append_assoc, List.cons_append, List.nil_append]; rfl)
   exact ⟨_, _, hp, rfl⟩
+
+/-- NEW (after the `foundFirstHunk` rule, which made "format given by option" and "format detected" differ only when no hunk is
+    found): the same with the format forced by `-u` — the scan starts from `{ format := .unified }`, filler is still ignored,
+    and because a first hunk IS found the forced format stays (compare `C11.forced_format_trailing_garbage`: filler only ⇒ `unknown`) -/
+theorem unified_header_after_filler_forced (filler : List Line) (old new oldt newt : Bytes) (h : Hunk) (first : Line) (more : List Line)
+    (strip : Int) (lineNo : Nat)
+    (hin : ∀ l ∈ filler, inertLine l.content = true) (hft : ∀ l ∈ filler, l.newline ≠ .none)
+    (hold : plainName old) (hnew : plainName new) (hot : oldt ≠ []) (hnt : newt ≠ [])
+    (hr : 0 ≤ h.old.start ∧ h.old.start ≤ i64Max / 4 ∧ 0 ≤ h.old.count ∧ h.old.count ≤ i64Max / 4 ∧
+          0 ≤ h.new.start ∧ h.new.start ≤ i64Max / 4 ∧ 0 ≤ h.new.count ∧ h.new.count ≤ i64Max / 4)
+    (hfirst : (startsWith first.content " " ∨ startsWith first.content "+" ∨ startsWith first.content "-") ∧
+              ¬ startsWith first.content "--- " ∧ ¬ startsWith first.content "+++ ")
+    (hterm : first.newline ≠ .none) :
+    ∃ info par',
+      parseHeader { s := { rest := filler ++ unifiedHeader old new oldt newt ++ ⟨rangeLineText h, .lf⟩ :: first :: more }, lineNo := lineNo }
+          { format := .unified } strip
+        = .ok (true,
+               { format := .unified, operation := inferredOp h,
+                 oldPath := if old = devNull then old else stripPath old strip,
+                 newPath := if new = devNull then new else stripPath new strip,
+                 oldTime := oldt, newTime := newt },
+               info, par') ∧
+      info.format = .unified ∧ info.linesTillFirstHunk = filler.length + 3 ∧
+      par'.s.rest = ⟨rangeLineText h, .lf⟩ :: first :: more := by
+  have hb : Header.bodyStart first.content := by
+    rcases hfirst.1 with h1 | h1 | h1
+    · exact Or.inr (Or.inr h1)
+    · exact Or.inl h1
+    · exact Or.inr (Or.inl h1)
+  have hp := Header.parseHeader_unified strip
+    { s := { rest := filler ++ unifiedHeader old new oldt newt ++ ⟨rangeLineText h, .lf⟩ :: first :: more }, lineNo := lineNo }
+    { format := .unified }
+    filler old new oldt newt h first more hin hft hold hnew hot hnt hr hb hfirst.2.1 hfirst.2.2 hterm (Or.inr rfl) rfl rfl rfl
+    (by simp only [unifiedHeader, List.append_assoc, List.cons_append, List.nil_append]; rfl)
+  exact ⟨_, _, hp, rfl, rfl, rfl⟩
+
+/-- NEW (the `diff --git` line always belongs to the header): a section whose first line is a `diff --git` line — if the header
+    scan succeeds at all (the name on the line may be malformed: then it throws), the result is a git patch, the first-hunk line
+    is at least the second line and the parser is left strictly after the `diff --git` line, whatever follows it (nothing,
+    filler, a second `diff --git` line …).  Before the change `diff --git a/x b/x` followed by filler gave
+    `linesTillFirstHunk = 0` and a parser left AT the `diff --git` line. -/
+theorem git_first_line_consumed (par : Parser) (pt : Patch) (strip : Int) (l : Line) (rest : List Line) (r : Bytes)
+    (hflags : par.s.eof = false ∧ par.s.bad = false) (hrest : par.s.rest = l :: rest)
+    (hl : l.content = str "diff --git " ++ r)
+    (body : Bool) (p : Patch) (info : HeaderInfo) (par' : Parser)
+    (h : parseHeader par pt strip = .ok (body, p, info, par')) :
+    p.format = .git ∧ info.format = .git ∧ 2 ≤ info.linesTillFirstHunk ∧ par'.s.rest.length < par.s.rest.length :=
+  Header.parseHeader_git_first par pt strip l rest r hflags.1 hflags.2 hrest hl body p info par' h
+
+-- the situation of the fix, evaluated: a lone `diff --git` line and a line of filler
+#guard match parseHeader { s := { rest := [⟨str "diff --git a/x b/x", .lf⟩, ⟨str "some text", .lf⟩] } } {} 0 with
+  | .ok (_, p, info, par') => p.format == .git && info.linesTillFirstHunk == 2 && par'.s.rest.length == 1
+  | _ => false
 
 end PatchModel.C11
 
 #print axioms PatchModel.C11.unified_header_roundtrip
 #print axioms PatchModel.C11.unified_header_after_filler
+#print axioms PatchModel.C11.unified_header_after_filler_forced
+#print axioms PatchModel.C11.git_first_line_consumed
